@@ -25,6 +25,8 @@ pub struct Reader<'a> {
     pub inflated: usize,
     /// accept the (officially opaque) LOCAL_EXT as hash8 + tag-led term
     pub allow_local: bool,
+    /// never inflate more than this many bytes from one COMPRESSED section (beyond min(declared + 1, this))
+    pub max_inflate: usize,
 }
 
 impl<'a> Reader<'a> {
@@ -35,6 +37,7 @@ impl<'a> Reader<'a> {
             cache_refs: None,
             inflated: 0,
             allow_local: true,
+            max_inflate: usize::MAX,
         }
     }
 
@@ -391,11 +394,11 @@ impl<'a> Reader<'a> {
                 let src = self.rest();
                 let mut dec = flate2::read::ZlibDecoder::new(src);
                 let mut out = Vec::new();
-                let mut limited = (&mut dec).take(declared as u64 + 1);
-                limited
-                    .read_to_end(&mut out)
-                    .map_err(|_| RefErr::Invalid("zlib stream"))?;
-                self.inflated += out.len();
+                let mut limited = (&mut dec).take((declared as u64 + 1).min(self.max_inflate as u64));
+                let read = limited.read_to_end(&mut out);
+                // bytes really inflated count even when the stream turns out to be broken further on
+                self.inflated += out.len().min(declared);
+                read.map_err(|_| RefErr::Invalid("zlib stream"))?;
                 if out.len() != declared {
                     return Err(RefErr::Invalid("inflated size differs from the declared size"));
                 }
@@ -403,8 +406,10 @@ impl<'a> Reader<'a> {
                 let mut inner = Reader::new(&out);
                 inner.cache_refs = self.cache_refs;
                 inner.allow_local = self.allow_local;
-                let v = inner.term(depth + 1)?;
+                inner.max_inflate = self.max_inflate;
+                let v = inner.term(depth + 1);
                 self.inflated += inner.inflated;
+                let v = v?;
                 if inner.pos != out.len() {
                     return Err(RefErr::Invalid("trailing bytes inside compressed section"));
                 }
@@ -439,14 +444,53 @@ pub fn ref_decode_prefix(data: &[u8]) -> Result<(Val, usize), RefErr> {
 /// Sum of the sizes all COMPRESSED sections of `data` *declare and really inflate to*, capped by
 /// the declaration; used as the "inflated length" allowance of C02. Never fails.
 pub fn inflated_allowance(data: &[u8]) -> usize {
-    // scan for tag 80 at the top level only (that is where OTP puts it): 131, 80, size4
-    if data.len() >= 6 && data[0] == 131 && data[1] == 80 {
-        let declared = u32::from_be_bytes([data[2], data[3], data[4], data[5]]) as usize;
-        let mut dec = flate2::read::ZlibDecoder::new(&data[6..]);
-        let mut out = Vec::new();
-        let mut limited = (&mut dec).take(declared.min(1 << 28) as u64);
-        let _ = limited.read_to_end(&mut out);
-        return out.len().min(declared);
+    // cheap filter: a COMPRESSED section is tag 80, four size bytes, then a zlib header (0x78 ..)
+    if !data.windows(6).any(|w| w[0] == 80 && w[5] == 0x78) {
+        return 0;
     }
-    0
+    let mut r = Reader::new(data);
+    r.max_inflate = 1 << 28;
+    if r.u8().ok() != Some(131) {
+        return 0;
+    }
+    // the walk may stop at the first thing the reference reader does not accept; what was inflated up to
+    // there still counts. It must run on a thread with a big stack (see `AllowanceWorker`).
+    let _ = r.term(0);
+    r.inflated
+}
+
+/// `inflated_allowance` on a dedicated thread with a large stack: the reference reader recurses up to
+/// `MAX_DEPTH` levels and must not be the one to overflow the 2 MiB stack the decoders are tested on.
+pub struct AllowanceWorker {
+    tx: std::sync::mpsc::Sender<Vec<u8>>,
+    rx: std::sync::mpsc::Receiver<usize>,
+}
+
+impl AllowanceWorker {
+    pub fn start() -> AllowanceWorker {
+        let (tx, rx_req) = std::sync::mpsc::channel::<Vec<u8>>();
+        let (tx_res, rx) = std::sync::mpsc::channel::<usize>();
+        std::thread::Builder::new()
+            .name("inflate-allowance".into())
+            .stack_size(512 << 20)
+            .spawn(move || {
+                while let Ok(data) = rx_req.recv() {
+                    let n = std::panic::catch_unwind(|| inflated_allowance(&data)).unwrap_or(0);
+                    if tx_res.send(n).is_err() {
+                        break;
+                    }
+                }
+            })
+            .expect("spawn allowance worker");
+        AllowanceWorker { tx, rx }
+    }
+    pub fn measure(&self, data: &[u8]) -> usize {
+        if !data.windows(6).any(|w| w[0] == 80 && w[5] == 0x78) {
+            return 0;
+        }
+        if self.tx.send(data.to_vec()).is_err() {
+            return 0;
+        }
+        self.rx.recv().unwrap_or(0)
+    }
 }
